@@ -136,6 +136,21 @@ def parse_discrete(line):
     return names, descr, log, neq
 
 
+def is_int_power_finding(message: str, sm, subs, want=None) -> bool:
+    """the known finding `integer-constant-to-negative-power`: numpy refuses `np.int64 ** negative int`; all three must hold:
+    the implementation raises exactly that ValueError, the structured model contains an integer-valued constant subexpression
+    through a numpy function (abs / maximum / minimum) raised to a constant negative integer power, and the independent evaluator
+    has a value for every equation (the equation as written is fine)"""
+    if "ValueError" not in message or "Integers to negative integer powers are not allowed" not in message:
+        return False
+    trees = [p for e in sm["eqs"] for v in (e["dyn"], e["steady"]) if v for p in v[1:]]
+    if not any(L.has_int_const_to_negative_power(t, subs) for t in trees):
+        return False
+    if want is not None and any(cls == "skip" for row in want for cls, _, _ in row):
+        return False
+    return True
+
+
 def check_model_case(ctx: Ctx, case, model_reply, value_site="equation-meaning"):
     """case: dict(sm, variants=[(source, ctx_spec, log_choice, features, used)], data, t)"""
     sm, data, t = case["sm"], case["data"], case["t"]
@@ -183,7 +198,11 @@ def check_model_case(ctx: Ctx, case, model_reply, value_site="equation-meaning")
             if any(name in str(dyn) for name in oracle_raises):
                 ctx.count("both-raise-arithmetic-error")
                 continue
-            ctx.fail(site_for(features, "equation-evaluation-raises"), payload, str(dyn))
+            site = site_for(features, "equation-evaluation-raises")
+            if is_int_power_finding(str(dyn), sm, subs, want):
+                site = "integer-constant-to-negative-power"
+                ctx.count("int-constant-to-negative-power")
+            ctx.fail(site, payload, str(dyn))
             continue
         names_i, descr_i, log_i, neq_i = parse_discrete(line)
         bad = []
@@ -926,6 +945,8 @@ def run_parse_stream(ctx: Ctx, n: int):
             ctx.disagree("parse", case, "ok " + L.enc_eqn(eqn) + " | T", rep)
             continue
         line, dyn, std = impl_model(source, spec, data, T0)
+        if std is None and is_int_power_finding(str(dyn), {"eqs": [{"dyn": eqn, "steady": None}]}, {}):
+            continue          # reported by check_model_case above under its own site; nothing to compare
         if std is None or not parts[2].startswith(("q:", "f:")):
             ctx.disagree("parse", case, str(dyn), rep); continue
         g = dyn[0]
